@@ -496,6 +496,50 @@ package route
 //@   requires n <= len(a) && n <= len(b) && 0 <= j && j < n && a[j] == nil && b[j] != nil && forall i int :: 0 <= i && i < n && i != j ==> a[i] == b[i]
 //@   assigns nothing
 //@   ensures nfilled(b, n) == nfilled(a, n) + 1
+//@ // the effective weights of the first n targets added up
+//@ spec fun sumW(ts []*Target, n int) float64 decreases n = n <= 0 ? 0.0 : sumW(ts, n-1) + ts[n-1].Weight
+//@
+//@ func lemmaDivAdd
+//@   props C04
+//@   requires c != 0.0
+//@   assigns nothing
+//@   ensures (a + b) / c == a / c + b / c
+//@ func lemmaZeroArith
+//@   props C04
+//@   requires c != 0.0
+//@   assigns nothing
+//@   ensures 0.0 / c == 0.0 && d * float64(0) == 0.0
+//@ func lemmaMulSucc
+//@   props C04
+//@   assigns nothing
+//@   ensures d * float64(k + 1) == d * float64(k) + d
+//@ func lemmaSumWFixed
+//@   props C04
+//@   opaque division
+//@   requires 0 <= n && n <= len(ts) && norm != 0.0
+//@   requires forall j int :: 0 <= j && j < n ==> ts[j] != nil && ts[j].Weight == (ts[j].FixedWeight > 0.0 ? ts[j].FixedWeight / norm : dyn)
+//@   assigns nothing
+//@   ensures sumW(ts, n) == sumF(ts, n) / norm + dyn * float64(n - nF(ts, n))
+//@   at "lemmaSumWFixed(ts, n-1, norm, dyn)" apply lemmaDivAdd(sumF(ts, n-1), ts[n-1].FixedWeight, norm)
+//@   at "lemmaSumWFixed(ts, n-1, norm, dyn)" apply lemmaMulSucc(dyn, n - 1 - nF(ts, n-1))
+//@   at "if n <= 0 {" apply lemmaZeroArith(norm, dyn)
+//@ func lemmaTotalOne
+//@   props C04
+//@   requires n >= 1 && 1 <= nf && nf <= n && s > 0.0
+//@   requires norm == ((s > 1.0 || (nf == n && s < 1.0)) ? s : 1.0)
+//@   requires dyn == ((1.0 - s) / float64(n - nf) < 0.0 ? 0.0 : (1.0 - s) / float64(n - nf))
+//@   assigns nothing
+//@   ensures s / norm + dyn * float64(n - nf) == 1.0
+//@ func lemmaSumWEqual
+//@   props C04
+//@   requires 0 <= n && n <= len(ts) && forall j int :: 0 <= j && j < n ==> ts[j] != nil && ts[j].Weight == w
+//@   assigns nothing
+//@   ensures sumW(ts, n) == float64(n) * w
+//@ func lemmaRecipMul
+//@   props C04
+//@   requires n >= 1
+//@   assigns nothing
+//@   ensures float64(n) * (1.0 / float64(n)) == 1.0
 //@ func lemmaLivePickIn
 //@   props C04
 //@   requires livePick(ts, p)
@@ -547,6 +591,8 @@ package route
 //@   ensures nopanic
 //@   ensures forall j int :: 0 <= j && j < len(r.Targets) ==> r.Targets[j].Weight == wexp(r.Targets, j)
 //@   ensures forall j int :: 0 <= j && j < len(r.Targets) ==> 0.0 <= r.Targets[j].Weight && r.Targets[j].Weight <= 1.0
+//@   // the effective weights of a route add up to one
+//@   ensures len(r.Targets) > 0 ==> sumW(r.Targets, len(r.Targets)) == 1.0
 //@   // a route with targets always has a ring to pick from
 //@   ensures len(r.Targets) > 0 ==> len(r.wTargets) > 0
 //@   // the route is usable by every lookup: targets non-nil, a ring exists, every ring slot is one of the targets
@@ -558,6 +604,9 @@ package route
 //@   loop 1 invariant nFixed > 0 ==> exists j int :: 0 <= j && j <= rangeindex && r.Targets[j].FixedWeight > 0.0
 //@   loop 1 invariant 0 <= nFixed && nFixed <= rangeindex+1 && nFixed == nF(r.Targets, rangeindex+1) && sumFixed == sumF(r.Targets, rangeindex+1) && sumFixed >= 0.0
 //@   at "w := 1.0 / float64(len(r.Targets))" apply lemmaRecipBound(len(r.Targets))
+//@   // the effective weights add up to one (no fixed weight): n * (1/n) = 1
+//@   at "r.wTargets = r.Targets" apply lemmaSumWEqual(r.Targets, len(r.Targets), w)
+//@   at "r.wTargets = r.Targets" apply lemmaRecipMul(len(r.Targets))
 //@   at "r.wTargets = r.Targets" assert forall j int :: 0 <= j && j < len(r.wTargets) ==> r.wTargets[j] == r.Targets[j]
 //@   at "r.wTargets = r.Targets" assert forall j int :: 0 <= j && j < len(r.wTargets) ==> exists i int :: 0 <= i && i < len(r.Targets) && r.wTargets[j] == r.Targets[i]
 //@   loop 2 invariant len(r.Targets) >= 1 ==> 0.0 < w && w <= 1.0
@@ -575,6 +624,10 @@ package route
 //@   loop 3 invariant forall j int :: 0 <= j && j < len(r.Targets) && !(r.Targets[j].FixedWeight > 0.0) ==> nFixed < len(r.Targets)
 //@   loop 3 invariant forall j int :: 0 <= j && j <= rangeindex ==> 0.0 <= r.Targets[j].Weight && r.Targets[j].Weight <= 1.0
 //@   loop 3 invariant forall j int :: 0 <= j && j <= rangeindex && r.Targets[j].FixedWeight > 0.0 ==> r.Targets[j].Weight > 0.0
+//@   loop 3 invariant forall j int :: 0 <= j && j <= rangeindex ==> r.Targets[j].Weight == (r.Targets[j].FixedWeight > 0.0 ? r.Targets[j].FixedWeight / norm : dynamic)
+//@   // the effective weights add up to one (fixed path): sumF/norm + dynamic * (number of dynamic targets) = 1
+//@   at "slots := make(byN, len(r.Targets))" apply lemmaSumWFixed(r.Targets, len(r.Targets), norm, dynamic)
+//@   at "slots := make(byN, len(r.Targets))" apply lemmaTotalOne(sumFixed, nFixed, len(r.Targets), norm, dynamic)
 //@   loop 4 invariant len(slots) == len(r.Targets) && fresh(slots)
 //@   loop 4 invariant forall j int :: 0 <= j && j < len(r.Targets) ==> 0.0 <= r.Targets[j].Weight && r.Targets[j].Weight <= 1.0
 //@   loop 4 invariant forall j int :: 0 <= j && j <= rangeindex ==> slots[j].i == j && 0 <= slots[j].n && slots[j].n <= 10000
